@@ -457,6 +457,18 @@ def _sv(v):
 reg(r'<%s as std::cmp::PartialEq(?:<%s>)?>::eq' % (_STR, _STR), lambda it, a, b: str_eq(it, _sv(a), _sv(b)))
 reg(r'<%s as std::cmp::PartialEq(?:<%s>)?>::ne' % (_STR, _STR), lambda it, a, b: not str_eq(it, _sv(a), _sv(b)))
 reg(r"<std::borrow::Cow<'_, str> as std::cmp::PartialEq<&str>>::eq", lambda it, a, b: str_eq(it, _sv(a), _sv(b)))
+@model(r'<%s as std::cmp::(Ord|PartialOrd)(?:<%s>)?>::(cmp|partial_cmp|lt|le|gt|ge)' % (_STR, _STR), True)
+def m_str_cmp(it, callee, a, b):
+    """lexicographic comparison by code point (= byte-wise order of the UTF-8 encodings)"""
+    x, y = _sv(a).chars, _sv(b).chars; o = 0
+    for p_, q_ in zip(x, y):
+        if B(it, p_ < q_): o = -1; break
+        if B(it, p_ > q_): o = 1; break
+    if o == 0: o = (len(x) > len(y)) - (len(x) < len(y))
+    meth = callee.rsplit('::', 1)[1]
+    if meth == 'cmp': return Adt(o, [])
+    if meth == 'partial_cmp': return SOME(Adt(o, []))
+    return {'lt': o < 0, 'le': o <= 0, 'gt': o > 0, 'ge': o >= 0}[meth]
 reg(r'<std::string::String as std::ops::Deref(Mut)?>::deref(_mut)?', lambda it, s: s)
 reg(r'std::string::String::(as_str|as_mut_str)', lambda it, s: s)
 reg(r'std::string::String::new', lambda it: SStr([]))
@@ -914,9 +926,40 @@ reg(r'<.(char|u8|&str|u32); .+. as std::ops::Index<std::ops::RangeFull>>::index'
 reg(r'core::array::<impl std::ops::Index<.*> for \[.*\]>::index', lambda it, a, r: m_slice_range(it, 'RangeFull' if not getattr(r, 'fields', None) else 'Range', a, r) if isinstance(r, Adt) else m_vec_index(it, a, r))
 reg(r'core::array::<impl std::iter::IntoIterator for &(mut )?\[.*\]>::into_iter', lambda it, a: PyIter(elem_refs(a)))
 reg(r'<\[.*; \d+\] as std::iter::IntoIterator>::into_iter', lambda it, a: PyIter(list(a)))
-@model(r'core::slice::<impl \[.*\]>::(sort|sort_unstable|sort_by|sort_by_key|sort_unstable_by)(::<.*>)?')
-def m_sort(it, sl, *clo): raise Unsupported('sort')
-
+@model(r'(?:core|std|alloc)::slice::<impl \[.*\]>::(sort_by|sort_unstable_by)::<.*>')
+def m_sort_by(it, sl, clo):
+    """stable insertion sort driven by the comparator closure (forks on symbolic comparisons)"""
+    lst = deref_all(sl); out = []
+    for x in list(lst):
+        k = len(out)
+        while k > 0:
+            o = it.call_closure(clo, Ref(Box_(out[k - 1])), Ref(Box_(x)))
+            v = o.variant if isinstance(o, Adt) else o
+            if B(it, v == 1) if not isinstance(v, int) else v == 1: k -= 1
+            else: break
+        out.insert(k, x)
+    lst[:] = out
+    return []
+@model(r'(?:core|std|alloc)::slice::<impl \[.*\]>::(sort|sort_unstable)')
+def m_sort(it, sl):
+    lst = deref_all(sl); out = []
+    from .containers import key_lt
+    for x in list(lst):
+        k = len(out)
+        while k > 0 and key_lt(it, x, out[k - 1]): k -= 1
+        out.insert(k, x)
+    lst[:] = out
+    return []
+@model(r'(?:core|std|alloc)::slice::<impl \[.*\]>::(sort_by_key|sort_unstable_by_key)::<.*>')
+def m_sort_by_key(it, sl, clo):
+    lst = deref_all(sl); out = []
+    from .containers import key_lt
+    for x in list(lst):
+        kx = it.call_closure(clo, Ref(Box_(x))); k = len(out)
+        while k > 0 and key_lt(it, kx, out[k - 1][0]): k -= 1
+        out.insert(k, (kx, x))
+    lst[:] = [x for _, x in out]
+    return []
 # ---------------------------------------------------------------- iterators
 _IT = r'<.* as std::iter::Iterator>::'
 @model(r'<.* as std::iter::IntoIterator>::into_iter')
